@@ -777,6 +777,21 @@ def corpus(pid):
                                               "MetaRunner._unqueue_payloads", "MetaRunner._manage_runners"],
                                     "p": 0.5, "sleep": 0.05, "max": 8, "total": 40, "seed": seed},
                         "timeout": 15, "linger": 0.3, "meta": {"family": "adopt", "launch_race": True}})
+    if pid in ("C02", "C03", "C12"):
+        # fixed defect C12-cross-flavour-register-deadlock: a trio payload keeps executing asyncio payloads
+        # while an asyncio payload (and the pre-start queue) keeps adopting trio payloads; then shutdown
+        payloads = {"0": {"flavour": "trio", "script": [["execute", 0, k] for k in range(10, 22)] + [["forever"]]},
+                    "1": {"flavour": "asyncio", "script": [["adopt", 0, k] for k in range(30, 36)] + [["forever"]]},
+                    "2": {"flavour": "trio", "script": [["execute", 0, 22], ["forever"]]},
+                    "3": {"flavour": "trio", "script": [["step"], ["forever"]]}}
+        for k in range(10, 23):
+            payloads[str(k)] = {"flavour": "asyncio", "script": [["step"], ["sleep", 0.03]]}
+        for k in range(30, 36):
+            payloads[str(k)] = {"flavour": "trio", "script": [["step"], ["forever"]]}
+        out.append({"runners": [{"accept_delay": 0.05}], "payloads": payloads, "services": {},
+                    "main": [["adopt", 0, 2], ["adopt", 0, 3], ["accept", 0]],
+                    "helpers": [[["wait_running", 0], ["adopt", 0, 0], ["adopt", 0, 1], ["sleep", 0.6], ["shutdown", 0]]],
+                    "timeout": 10, "linger": 0.3, "meta": {"family": "stop", "trigger": "shutdown", "when": "late"}})
     if pid == "C02":
         for fl in ("asyncio", "threading"):
             out.append({"runners": [{"accept_delay": 0.05}],
